@@ -151,6 +151,9 @@ func (c *CopyCommand) copyOneFile(srcRelPath, destRelPath string, tow io.Writer)
 		return err
 	})
 	if err := eg.Wait(); err != nil {
+		if destDB != nil {
+			destDB.Close()
+		}
 		return err
 	}
 	defer destDB.Close()
